@@ -1424,11 +1424,25 @@ def run(ck):
     except Exception as ex:
         ck.log("could not raise the stack limit: %s" % ex)
     # ---- generated facts
-    text, facts = generate()
-    ck.translate("Gen_C06", text)
+    tie_error = None
+    try:
+        text, facts = generate()
+        ck.translate("Gen_C06", text)
+    except TieBroken as ex:
+        # a translator no longer finds the shape it parses: the generated facts are stale, hence unproved; the search for
+        # a failing input still runs, engine against the reference evaluation only (the model's configuration is unknown)
+        tie_error = str(ex)
+        ck.log("translator: %s" % tie_error)
+        facts = {"interned_ops": ["PUSH", "SET", "CALLGLOBAL", "CALLGLOBALNOARITY", "CALLPRIMITIVE", "CALLGLOBALTAIL",
+                                  "CALLGLOBALTAILNOARITY"], "scanned_ops": [], "stale": True}
     ck.cov["generated"] = facts
     missing = [o for o in facts["interned_ops"] if o not in facts["scanned_ops"]]
-    proved = ck.proof_stage(["c06", "gen"], ["c06/Properties_C06"], "c06/Pins_C06.v")
+    proved = ck.proof_stage(["c06"], ["c06/Properties_C06"], "c06/Pins_C06.v", extra_obligations=1)
+    if tie_error is None and proved:
+        pass
+    elif tie_error is not None:
+        ck.cov["discharged"] = max(0, ck.cov["discharged"] - 1)      # the generated-facts obligation
+        proved = False
     ck.log("proof stage: %s (%d obligations)" % ("ok" if proved else "BROKEN", ck.cov["obligations"]))
     ck.harness_build(["evalsrv"])
 
@@ -1446,9 +1460,9 @@ def run(ck):
     names = sorted(corp)
     hs = [corp[n] for n in names]
     exps = [oracle_run(h) for h in hs]
-    model_ok = True
+    model_ok = tie_error is None
     try:
-        info0 = compare(ck, hs, exps, "corpus")
+        info0 = compare(ck, hs, exps, "corpus") if model_ok else compare_engine_only(ck, hs, exps, "corpus")
     except TieBroken as ex:
         # the model no longer compiles (a proof or generated fact broke): the engine-vs-oracle part must still run
         model_ok = False
@@ -1494,7 +1508,10 @@ def run(ck):
     for h, e in list(zip(hs, exps))[:3]:
         ck.sample({"units": [steel_unit(u) for u in h[:6]], "expected": [x[0] for x in e[:6]], "length": len(h)})
     if not proved and not ck.violations:
-        ck.unproved()
+        if tie_error is not None:
+            ck.violation("tie between model and /repo broken: %s" % tie_error, {"tie": tie_error}, no_input=True, tag="tie")
+        else:
+            ck.unproved()
 
 
 def compare_engine_only(ck, histories, expects, tag):
